@@ -10,7 +10,7 @@
    and the facts that connect the lock discipline of ONE table record (wrapper_ok) to the machine's hypothesis
    ([disciplined]). *)
 From Coq Require Import List Bool Arith Lia.
-From Coq Require String.
+From Coq Require Import Ascii.
 From PyCasbin Require Import Base SyncedBase Synced.
 Import ListNotations.
 
@@ -849,6 +849,13 @@ Section Lin.
 End Lin.
 
 (* ================================================================== from one table record to the machine *)
+Lemma text_eqb_eq : forall a b, text_eqb a b = true <-> a = b.
+Proof.
+  induction a as [|x r IH]; destruct b as [|y s]; simpl; split; intro H; try discriminate; auto.
+  - apply andb_true_iff in H. destruct H as [H1 H2]. apply Ascii.eqb_eq in H1. apply IH in H2. congruence.
+  - inversion H; subst. rewrite Ascii.eqb_refl. simpl. apply IH. reflexivity.
+Qed.
+
 Lemma is_nil_true {A} : forall l : list A, is_nil l = true -> l = [].
 Proof. destruct l; simpl; intros; auto; discriminate. Qed.
 
@@ -863,7 +870,7 @@ Proof.
   apply app_eq_nil in H. destruct H as [H5 H6].
   repeat split.
   - destruct (known t); auto; discriminate.
-  - destruct (String.eqb (w_name w) t) eqn:E; try discriminate. apply String.eqb_eq. auto.
+  - destruct (text_eqb (w_name w) t) eqn:E; try discriminate. apply text_eqb_eq. auto.
   - destruct (lock_ok (w_mode w) t); auto. destruct (w_mode w); discriminate.
   - destruct (forwards_all w); auto; discriminate.
   - intro Hr. rewrite Hr in H5. simpl in H5. destruct (w_returns w); auto; discriminate.
@@ -882,7 +889,7 @@ Qed.
 Section Table.
   Variables state local ret : Type.
   (* ANY semantics of the Enforcer methods by micro steps on ANY state, keyed by method name ... *)
-  Variable mstep : String.string -> local -> state -> local * state.
+  Variable mstep : text -> local -> state -> local * state.
   (* ... that respects the hand classification: a method classified non-mutating changes nothing, a method
      classified stateless neither changes nor reads anything (validated dynamically by harness/props/c17.py) *)
   Definition respects_classes : Prop :=
@@ -892,7 +899,7 @@ Section Table.
   Lemma find_wrapper_some : forall tbl m w, find_wrapper tbl m = Some w -> In w tbl /\ w_name w = m.
   Proof.
     intros tbl m w H. unfold find_wrapper in H. apply find_some in H. destruct H as [H1 H2].
-    split; auto. apply String.eqb_eq. auto.
+    split; auto. apply text_eqb_eq. auto.
   Qed.
 
   Theorem table_disciplined : forall api tbl, forallb (wrapper_ok api) tbl = true -> respects_classes ->
